@@ -31,6 +31,7 @@ func runC11(c *core.Ctx) {
 	ruleCopierErrors(c)
 	ruleCopierNoMutation(c)
 	ruleNilEntryDiscipline(c)
+	ruleInStreamGuards(c, "C11-R8") // copied streams: dictionary strings are encrypted under the target object's key
 }
 
 func ruleCopierNonNil(c *core.Ctx) {
